@@ -25,6 +25,11 @@ type c06Case struct {
 	Tight bool `json:"tight,omitempty"`
 	// EarlyAt > 0: Finalize is also called before op EarlyAt (the program is continued afterwards)
 	EarlyAt int `json:"early_at,omitempty"`
+	// ops[CloneFrom:CloneTo] are emitted into a Clone that is appended back (0,0 = everything directly); with Sibling a
+	// second clone made at the same point gets a NOP and then the same calls, each right after the kept clone, and is discarded
+	CloneFrom int  `json:"clone_from,omitempty"`
+	CloneTo   int  `json:"clone_to,omitempty"`
+	Sibling   bool `json:"sibling,omitempty"`
 }
 
 var (
@@ -152,7 +157,27 @@ func c06Check(c c06Case) error {
 		capacity -= 8
 	}
 	p := &emPair{em: asm.NewEmitter(make([]byte, capacity), c.Listing), m: asmcat.NewModel(capacity, false, c.Listing)}
+	orig := p.em
+	useClone := c.CloneTo > c.CloneFrom && c.CloneTo <= len(c.Ops) && (c.EarlyAt <= c.CloneFrom || c.EarlyAt >= c.CloneTo)
+	var sib *asm.Emitter
+	join := func() error {
+		var pan interface{}
+		func() {
+			defer func() { pan = recover() }()
+			orig.Append(p.em)
+		}()
+		if pan != nil {
+			return fmt.Errorf("Append of the clone failed: %v", pan)
+		}
+		p.em, p.lenBias, sib = orig, 0, nil
+		return nil
+	}
 	for i, o := range c.Ops {
+		if useClone && i == c.CloneTo {
+			if err := join(); err != nil {
+				return err
+			}
+		}
 		if c.EarlyAt > 0 && i == c.EarlyAt {
 			// an early Finalize: resolves what can be resolved so far; the program is then continued
 			if err := c06Finalize(p, 0); err != nil {
@@ -162,13 +187,29 @@ func c06Check(c c06Case) error {
 				return fmt.Errorf("after the early Finalize: %v", err)
 			}
 		}
+		if useClone && i == c.CloneFrom {
+			p.lenBias = orig.Len()
+			p.em = orig.Clone(make([]byte, capacity))
+			if c.Sibling {
+				sib = orig.Clone(make([]byte, capacity+1))
+				sib.NOP()
+			}
+		}
 		if err := p.step(i, o); err != nil {
 			return err
+		}
+		if sib != nil {
+			asmcat.ApplyReal(sib, o)
 		}
 		if o.Kind == "label" {
 			if err := p.checkLabels(); err != nil {
 				return fmt.Errorf("after op %d: %v", i, err)
 			}
+		}
+	}
+	if useClone && p.em != orig {
+		if err := join(); err != nil {
+			return err
 		}
 	}
 	if !bytes.Equal(p.em.Bytes(), p.m.Bytes) {
@@ -201,7 +242,7 @@ func init() {
 func TestC06(t *testing.T) {
 	rig.Main(t, "C06", "rapid emitter histories (instructions, data, labels from a pool of 8, forward/backward/multiple/missing references, absolute jumps, duplicate label definitions, "+
 		"optional base address set first, program within one bank) with branch distances solved to -129/-128/-127 and +126/+127/+128, run on a real emitter and on an executable model; "+
-		"Finalize's verdict, every patched byte, the error message and the set of bytes a failing Finalize may touch are compared, and Finalize is called twice at the end and, in a third of the cases, also at a drawn earlier point after which the program continues; the buffer is exactly as long as the program in a quarter of the cases.  Non-trivial = the history "+
+		"Finalize's verdict, every patched byte, the error message and the set of bytes a failing Finalize may touch are compared, and Finalize is called twice at the end and, in a third of the cases, also at a drawn earlier point after which the program continues; the buffer is exactly as long as the program in a quarter of the cases; in a quarter a drawn part of the calls reaches the emitter through Clone + Append (half of these with a second, discarded clone used at the same time).  Non-trivial = the history "+
 		"contains a label reference; distinct = hash(case).",
 		func(r *rig.Run) {
 			ev := r.Ev
@@ -215,6 +256,17 @@ func TestC06(t *testing.T) {
 				}
 				if c.Tight {
 					ev.Class("buffer-exactly-as-long-as-the-program")
+				}
+				if len(c.Ops) > 1 && rapid.IntRange(0, 3).Draw(t, "via-clone") == 0 {
+					c.CloneFrom = rapid.IntRange(0, len(c.Ops)-1).Draw(t, "clone-from")
+					c.CloneTo = rapid.IntRange(c.CloneFrom+1, len(c.Ops)).Draw(t, "clone-to")
+					c.Sibling = rapid.Bool().Draw(t, "sibling")
+					if c.EarlyAt <= c.CloneFrom || c.EarlyAt >= c.CloneTo {
+						ev.Class("part-emitted-through-Clone+Append")
+						if c.Sibling {
+							ev.Class("part-emitted-through-Clone+Append/second-clone-alive")
+						}
+					}
 				}
 				r.Check(t, "rapid", c, func() error { return c06Check(c) })
 				// classify with the model
